@@ -136,6 +136,9 @@ PROPS['C03']['parts'] += [{'src': 'harness/sheter.cpp', 'prefix': 'C03/heter/', 
 # the generation counter wraps during one of the concurrent additions (fix 15 was found here)
 WRAP_PARTS = [{'src': 'harness/slist.cpp', 'prefix': 'C03/wrap/', 'variants': ['g17'], 'defs': ['VERIF_SUB=%d' % i]} for i in (7, 8)]
 PROPS['C03']['parts'] += WRAP_PARTS
+FAULTING_PARTS = [{'src': 'harness/slist.cpp', 'prefix': 'C03/faulting-append/', 'variants': ['g17'], 'defs': ['VERIF_SUB=9']}]
+PROPS['C03']['parts'] += FAULTING_PARTS
+PROPS['C03']['rule'] += '; plus FAULTING-APPEND units: one thread appends a callback whose copy constructor throws inside the library while the other threads add, remove and traverse (also with the counter wrapping on a successful addition): the failed call reports the exception and has no effect in any schedule'
 PROPS['C03']['rule'] += '; plus WRAP units (C03/wrap/...): the same kinds of configurations (wrapping addition x any call; x two calls; addition+follow-up x two calls; from an empty list) with the generation counter placed so that the 1st, 2nd, ... addition made by the threads wraps it, so that the renumbering of all nodes races removals, traversals and other additions - bounded (CallbackList with VMutex and SpinLock, EventDispatcher) and all-interleavings (CallbackList)'
 PROPS['C03']['rule'] += '; plus (an extension beyond the anchored classes) HeterCallbackList / HeterEventDispatcher with the injected Threading policy: all pairs of {append/prepend per prototype, invoke per prototype, remove of a pre-registered handle, append under a second event} on 2 threads, triples around the lazily created per-prototype list, 2x2 programs in the thorough tier; the inner per-prototype lists (which always use std::mutex) are atomic blocks; oracle: nothing registered is lost or duplicated after the threads joined, a handle is removed at most once, an invocation calls nothing twice and nothing of another prototype, no deadlock'
 
@@ -226,6 +229,9 @@ PROPS['C09'] = {
     'bounds': {'quick': '<=3 callbacks / <=3 pending events, depth 4-5, one fault per operation (pairs arise across consecutive operations)', 'thorough': '<=4 callbacks / <=4 pending, depth 7-10 (fixpoint reached earlier in most units), up to two faults inside one operation'},
     'technique': 'exhaustive fault enumeration: every k-th fault point of every operation in every reachable small state, on the real code, explored by the choice-tree explorer',
 }
+
+PROPS['C09']['parts'] += [dict(x) for x in FAULTING_PARTS]
+PROPS['C09']['rule'] += '; plus (an extension: the property ranges over sequential fault sequences) the FAULTING-APPEND units of C03: a failing append overlapping other threads\' additions, removals and traversals under the scheduler, all schedules within the preemption bound'
 
 PROPS['C16'] = {
     'title': 'CounterRemover and ConditionalRemover detach listeners exactly when promised',
